@@ -89,6 +89,14 @@ _TG_TEXT = ("Bounded symbolic model checking of the real TaskGroup code (__aente
 _TG_NOTE = "Trusted: z3, CrossHair, CPython's C Task/Future, VLoop stubs. Outside: >3 children, nesting depth >2, uvloop, trio."
 REGISTRY["C01"] = {"harnesses": ["symx.harness.c01_join"], "level": "model_checking", "text": _TG_TEXT + "C01 clauses: at the first instruction after the block every child has terminated and takes no further step; every TaskHandle is final and matches how the coroutine ended.", "note": _TG_NOTE}
 REGISTRY["C02"] = {"harnesses": ["symx.harness.c02_errors", "symx.harness.c07_start"], "level": "model_checking", "text": _TG_TEXT + "C02 clauses: leaves of the raised exception group == the non-cancellation exceptions actually raised (by identity, exactly once), no own cancellation reported, siblings cancelled after a failure; plus the start() scenarios of C07 (starter cancelled while the child unwinds).", "note": _TG_NOTE}
+REGISTRY["C08"] = {
+    "harnesses": ["symx.harness.c08_checkpoint"],
+    "level": "model_checking",
+    "text": "Symbolic execution of the operation x fast-path-state matrix on the real asyncio loop logic: for each of 24 potentially blocking operations (in a state where it can complete "
+            "without waiting), 10 exempt synchronous calls and 23 anyio.itertools traversals, the enclosing scope chain's cancel and shield flags and the state parameters "
+            "(semaphore value, tokens, buffer fill, delay <= 0, input length) are symbolic; oracle: effectively cancelled => raises and no effect; otherwise yields at least once.",
+    "note": "Trusted: z3, CrossHair, CPython's C Task/Future, VLoop stubs. Outside: to_thread.run_sync outside a cancelled scope (real thread), uvloop, trio.",
+}
 
 NOT_APPLICABLE = {
     "C17": "TLS record framing/fragmentation/truncation happens inside OpenSSL (ssl.SSLObject/MemoryBIO, C code): no available engine can execute it symbolically, and a stub would make the check a statement about the stub (DESIGN.md section 3, C17).",
